@@ -252,10 +252,21 @@ func Execute(t *testing.T, sc *Scenario, plan *Plan, ch *Chooser, maxSteps int, 
 			res.NonTrivial = total(res.Faults) > 0 || ch.MultiTask >= 3
 		}
 
-		// clean-up: free-run, abort the environment, cancel, let everything end
+		// clean-up: free-run, abort the environment, cancel, let everything end.
+		// The bubble's clock stops once this (root) goroutine returns, so the
+		// root stays until sleeping goroutines have woken up and gone; what is
+		// still there after that is blocked for good (a genuine leak) and ends
+		// the bubble with its deadlock panic, recovered by Execute.
 		s.FreeRun()
 		close(e.Abort)
 		cancel()
+		for i := 0; i < 4; i++ {
+			synctest.Wait()
+			if live, _ := s.Live(); live == 0 {
+				break
+			}
+			time.Sleep(horizon)
+		}
 	})
 	return res
 }
